@@ -102,56 +102,45 @@ Theorem C06_never_older_partial : forall fx T ns l1 l2,
 Proof. exact never_older. Qed.
 Print Assumptions C06_never_older_partial.
 
-(* The full statement (no guard) does not hold in the faithful model — and not in the code: *)
-Definition C06_never_older_full : Prop := forall fx T ns l1 l2,
-  world_le (run fx T (world0 ns) l1) (run fx T (world0 ns) (l1 ++ l2)).
-
-(* two creators of one key: the leaseholder path overwrites a newer entry of the other leader *)
-Theorem C06_never_older_leaseholder_path_refuted : ~ C06_never_older_full.
-Proof. intros H. exact (leasepath_refuted true (H true 2 [1; 2; 3] lp_prefix lp_last)). Qed.
+(* The full statement (no guard) does not hold in the faithful model — and not in the code:
+   never_older_full := forall fx T ns l1 l2, world_le (run .. l1) (run .. (l1 ++ l2)).
+   Two creators of one key: the leaseholder path overwrites a newer entry of the other leader. *)
+Theorem C06_never_older_leaseholder_path_refuted : ~ never_older_full.
+Proof. exact never_older_full_refuted. Qed.
 Print Assumptions C06_never_older_leaseholder_path_refuted.
 
-(* one creator per key, recovery applied after gossip moved on: the peer's older entry lands on top *)
+(* one creator per key, recovery applied after gossip moved on (or two peers, as kv.Open runs
+   them): the peer's older entry lands on top *)
 Theorem C06_never_older_recovery_refuted :
   ~ world_le (run true 1 (world0 [1; 2; 3]) rs_prefix) (run true 1 (world0 [1; 2; 3]) (rs_prefix ++ rs_last)) /\
   entry_at (run true 1 (world0 [1; 2; 3]) rp_prefix) 3 1 = Some (Op 1 2 1 false 11) /\
   entry_at (run true 1 (world0 [1; 2; 3]) (rp_prefix ++ rp_last)) 3 1 = Some (Op 1 1 1 false 10).
-Proof. split; [exact (recovery_split_refuted true)|exact (recovery_two_peers_regress true)]. Qed.
+Proof. exact recovery_refuted_true. Qed.
 Print Assumptions C06_never_older_recovery_refuted.
 
-(* (8) Quiescence. Full statement: in every reachable state without infected operations all
-   engines are identical. *)
-Definition C06_quiescent_full : Prop := forall T ns l,
-  let w := run true T (world0 ns) l in
-  quiescent w -> forall n m, entry_at w n = entry_at w m.
-
-(* refuted on three nodes (SIR stops after T+1 redundant feedbacks from any peers) ... *)
-Theorem C06_quiescent_three_nodes_refuted : ~ C06_quiescent_full.
-Proof.
-  intros H. destruct (sir_quiesced_diverged true) as (Hq & H1 & _ & H3).
-  specialize (H 1 [1; 2; 3] sir_script (quiescentb_sound _ Hq) 1 3).
-  apply (f_equal (fun f => f 1)) in H. rewrite H1, H3 in H. discriminate.
-Qed.
+(* (8) Quiescence. Full statement:
+   quiescent_full := forall T ns l, quiescent (run true T (world0 ns) l) ->
+                     forall n m k, entry_at (run ..) n k = entry_at (run ..) m k.
+   Refuted on three nodes (SIR stops after T+1 redundant feedbacks from any peers) ... *)
+Theorem C06_quiescent_three_nodes_refuted : ~ quiescent_full.
+Proof. exact quiescent_full_refuted. Qed.
 Print Assumptions C06_quiescent_three_nodes_refuted.
 
 (* ... and on two nodes after a restart (the gossip store is in memory only) *)
 Theorem C06_quiescent_restart_refuted :
-  let w := run true 1 (world0 [1; 2]) [SWrite 1 1 10 0; SRestart 1; SRound 1 2 false; SRound 2 1 false] in
-  quiescent w /\ entry_at w 1 1 = Some (Op 1 1 1 false 10) /\ entry_at w 2 1 = None.
-Proof.
-  destruct (restart_quiesced_diverged true) as (Hq & H1 & H2).
-  split; [exact (quiescentb_sound _ Hq)|split; assumption].
-Qed.
+  quiescent (run true 1 (world0 [1; 2]) restart_script) /\
+  entry_at (run true 1 (world0 [1; 2]) restart_script) 1 1 = Some (Op 1 1 1 false 10) /\
+  entry_at (run true 1 (world0 [1; 2]) restart_script) 2 1 = None.
+Proof. exact restart_refutes. Qed.
 Print Assumptions C06_quiescent_restart_refuted.
 
 (* With the pinned upstream gossip store (fx = false) it failed even on two nodes without restart:
    finding F5, repaired in /repo; the model's fx = true copies the repaired kvStore.apply. *)
 Theorem C06_quiescent_unfixed_store_refuted :
-  let w := run false 1 (world0 [1; 2]) f5_script in
-  quiescent w /\ entry_at w 1 1 = Some (Op 1 2 1 false 11) /\ entry_at w 2 1 = Some (Op 1 1 1 false 10).
-Proof.
-  destruct f5_unfixed as (Hq & H1 & H2). split; [exact (quiescentb_sound _ Hq)|split; assumption].
-Qed.
+  quiescent (run false 1 (world0 [1; 2]) f5_script) /\
+  entry_at (run false 1 (world0 [1; 2]) f5_script) 1 1 = Some (Op 1 2 1 false 11) /\
+  entry_at (run false 1 (world0 [1; 2]) f5_script) 2 1 = Some (Op 1 1 1 false 10).
+Proof. exact f5_unfixed_refutes. Qed.
 Print Assumptions C06_quiescent_unfixed_store_refuted.
 
 (* What holds: two nodes, repaired store, one creator per key, no restart / recovery, payloads
@@ -189,6 +178,6 @@ Example C06_nonvacuous :
 Proof.
   split; [intros o; simpl; tauto|].
   split; [vm_compute; reflexivity|]. split; [vm_compute; reflexivity|]. split; [vm_compute; reflexivity|].
-  destruct f5_script_covered as (H1 & H2 & H3). repeat split; try assumption.
-  vm_compute. reflexivity.
+  destruct f5_script_covered as (H1 & H2 & H3).
+  split; [exact H1|]. split; [exact H2|]. split; [exact H3|]. exact f5_fixed_entry.
 Qed.
